@@ -183,7 +183,9 @@ pub fn render_spline(
     splines: &Splines,
     base_correlations_xb: Option<(f32, f32)>,
 ) -> crate::Result<()> {
-    let region = base_grid.regions_and_shifts()[0].0;
+    // Splines are drawn before the frame is upsampled; the buffer covers the downsampled region.
+    let (region, shift) = base_grid.regions_and_shifts()[0];
+    let region = region.downsample_with_shift(shift);
 
     for quant_spline in &splines.quant_splines {
         let spline = Spline::dequant(quant_spline, splines.quant_adjust, base_correlations_xb);
